@@ -31,6 +31,7 @@ enum Fam : uint32_t {
     F_BYTE = 1u << 13,     // byte-granular cut positions (thorough)
     F_INJECT = 1u << 14,   // scenario's injected application action at any choice point
     F_FINE = 1u << 15,     // handler-granular injection points
+    F_FINENET = 1u << 16,  // handler-granular network events: another enabled completion is posted between two handlers of a drain
 };
 
 struct Action {
